@@ -10,7 +10,7 @@ use nodrop::NoDrop;
 
 // ------------------------------------------------------------------------------------------ leaves
 
-// @ob id=O1.1 props=C01,C17 tier=quick kind=proof weight=light fn="KingType::legal_king_move" desc="for EVERY placement satisfying the occupancy invariant, either side to move and every destination square: legal_king_move(board,d) is true exactly when no enemy man attacks d on the board with the mover's king lifted off and d treated as occupied — independent flood-fill attack spec started from the attackers (the library looks from the target); slider lookups through their C15 contract"
+// @ob id=O1.1 props=C01,C17,C04 tier=quick kind=proof weight=light fn="KingType::legal_king_move" desc="for EVERY placement satisfying the occupancy invariant, either side to move and every destination square: legal_king_move(board,d) is true exactly when no enemy man attacks d on the board with the mover's king lifted off and d treated as occupied — independent flood-fill attack spec started from the attackers (the library looks from the target); slider lookups through their C15 contract"
 #[kani::proof]
 #[kani::unwind(9)]
 #[kani::stub(crate::magic::get_rook_moves, crate::vstubs::rook_moves_cf)]
@@ -39,7 +39,7 @@ pub(crate) fn any_valid_wf_board() -> (Board, sp::Pos, u64, u64) {
     (b, pos, ch, pin)
 }
 
-// @ob id=O1.2 props=C01,C17 tier=quick kind=proof weight=light fn="PawnType::legal_ep_move" desc="for every valid position with en-passant state (pushed pawn on its fourth rank, squares behind it empty, the position before the push had the mover's king safe) and each of the up to two capturing pawns: legal_ep_move is true exactly when, after the capture (both pawns gone from their squares, capturer on the passed-over square), the mover's king is not attacked — definitional flood-fill spec covering rank- and diagonal-exposure"
+// @ob id=O1.2 props=C01,C17,C04 tier=quick kind=proof weight=light fn="PawnType::legal_ep_move" desc="for every valid position with en-passant state (pushed pawn on its fourth rank, squares behind it empty, the position before the push had the mover's king safe) and each of the up to two capturing pawns: legal_ep_move is true exactly when, after the capture (both pawns gone from their squares, capturer on the passed-over square), the mover's king is not attacked — definitional flood-fill spec covering rank- and diagonal-exposure"
 #[kani::proof]
 #[kani::unwind(9)]
 #[kani::stub(crate::magic::get_rook_moves, crate::vstubs::rook_moves_cf)]
@@ -62,7 +62,7 @@ fn c01_legal_ep_move() {
     kani::cover!(!want);
 }
 
-// @ob id=O1.3 props=C01,C17 tier=quick kind=proof weight=light fn="PawnType::pseudo_legals,KnightType::pseudo_legals,BishopType::pseudo_legals,RookType::pseudo_legals,QueenType::pseudo_legals,KingType::pseudo_legals,PieceType::is,PieceType::into_piece" desc="pseudo_legals of each of the six piece types equals its movement rule intersected with the mask, for every source square, colour, occupancy and mask: pawn pushes (double step only from the second rank through two empty squares) plus captures only onto occupied squares, knight leaps, king steps, slider rays up to and including the first blocker (through the C15/C16 contracts); is()/into_piece() name the right piece"
+// @ob id=O1.3 props=C01,C17,C04 tier=quick kind=proof weight=light fn="PawnType::pseudo_legals,KnightType::pseudo_legals,BishopType::pseudo_legals,RookType::pseudo_legals,QueenType::pseudo_legals,KingType::pseudo_legals,PieceType::is,PieceType::into_piece" desc="pseudo_legals of each of the six piece types equals its movement rule intersected with the mask, for every source square, colour, occupancy and mask: pawn pushes (double step only from the second rank through two empty squares) plus captures only onto occupied squares, knight leaps, king steps, slider rays up to and including the first blocker (through the C15/C16 contracts); is()/into_piece() name the right piece"
 #[kani::proof]
 #[kani::unwind(9)]
 #[kani::stub(crate::magic::get_rook_moves, crate::vstubs::rook_moves_cf)]
